@@ -23,7 +23,8 @@ TStep ==
   /\ l' = l + 1
   /\ LET e == Trace[l] IN
      \/ e.op = "New" /\ TNew
-     \/ e.op = "Begin" /\ Begin(e.c) /\ last'.res = e.res /\ Shape(e)
+     \/ e.op = "Begin" /\ (Begin(e.c) \/ Resume(e.c)) /\ last'.op = "Begin" /\ last'.res = e.res /\ Shape(e)
+     \/ e.op = "Park" /\ Begin(e.c) /\ last'.op = "Park" /\ Shape(e)
      \/ e.op = "Pre" /\ Pre(e.c) /\ last'.res = e.res /\ Shape(e)
      \/ e.op = "End" /\ End(e.c, e.out) /\ Shape(e)
      \/ e.op = "Metrics" /\ MetricsOp /\ last'.a = e.a /\ last'.b = e.b /\ last'.res = e.mst /\ Shape(e)
